@@ -99,22 +99,24 @@ def _is_private(n):
 def private_members(tree):
     """{'' (module) | class name: {'functions'|'methods': [...],
     'globals'|'fields': [...]}}: private names in definition order."""
-    out = {"": {"functions": [], "globals": []}}
+    out = {"": {"functions": [], "globals": [], "arity": {}}}
     for st in tree.body:
         if isinstance(st, (ast.FunctionDef, ast.AsyncFunctionDef)) \
                 and _is_private(st.name):
             out[""]["functions"].append(st.name)
+            out[""]["arity"][st.name] = len(st.args.args)
         elif isinstance(st, ast.Assign):
             for t in st.targets:
                 if isinstance(t, ast.Name) and _is_private(t.id) \
                         and t.id not in out[""]["globals"]:
                     out[""]["globals"].append(t.id)
         elif isinstance(st, ast.ClassDef):
-            d = {"methods": [], "fields": []}
+            d = {"methods": [], "fields": [], "arity": {}}
             for b in st.body:
                 if isinstance(b, (ast.FunctionDef, ast.AsyncFunctionDef)):
                     if _is_private(b.name):
                         d["methods"].append(b.name)
+                        d["arity"][b.name] = len(b.args.args)
                     selfn = b.args.args[0].arg if b.args.args else None
                     for n in ast.walk(b):
                         tgts = []
@@ -190,8 +192,33 @@ class Model:
                 if want is None:
                     continue
                 for kind, names in kinds.items():
+                    if kind == "arity":
+                        continue
                     old = want.get(kind, [])
-                    if old == names or len(old) != len(names):
+                    if old == names:
+                        continue
+                    if len(old) != len(names) and kind in ("methods",
+                                                           "functions"):
+                        # helpers were added or removed as well: a vanished
+                        # function is matched with the one unknown function
+                        # of the same arity, if there is exactly one
+                        gone = [o for o in old if o not in names]
+                        fresh = [n for n in names if n not in old
+                                 and n not in vocab and n not in known]
+                        la, oa = kinds.get("arity", {}), want.get("arity", {})
+                        for o in gone:
+                            cands = [n for n in fresh
+                                     if la.get(n) == oa.get(o)]
+                            others = [g for g in gone if g != o
+                                      and oa.get(g) == oa.get(o)]
+                            if len(cands) == 1 and not others:
+                                if cname:
+                                    amap[cands[0]] = o
+                                else:
+                                    gmap.setdefault(modname, {})[
+                                        cands[0]] = o
+                        continue
+                    if len(old) != len(names):
                         continue
                     pairs = [(o, n) for o, n in zip(old, names) if o != n]
                     if any(o in names or n in old or n in vocab or n in known
